@@ -215,7 +215,7 @@ SRC_TIE_FILES = {
     'Codec': ['mido/messages/encode.py', 'mido/messages/decode.py', 'mido/messages/checks.py'],
     'Tok': ['mido/tokenizer.py'],
     'Meta': ['mido/midifiles/meta.py'],
-    'Vlq': ['mido/midifiles/meta.py'],
+    'Vlq': ['mido/midifiles/meta.py', 'mido/midifiles/midifiles.py'],
 }
 
 
